@@ -1,0 +1,66 @@
+//go:build verif
+
+package lossy
+
+import (
+	"image"
+
+	"github.com/deepteams/webp/internal/dsp"
+)
+
+// Verification hooks for the pixel import of the lossy encoder (property
+// C19). Compiled only with the build tag "verif"; thin wrappers, no behaviour
+// of their own.
+
+// VerifImportPlanes runs NewEncoder (hence importImage) on img and returns
+// copies of the padded Y/U/V planes it filled.
+func VerifImportPlanes(img image.Image, cfg EncodeConfig) (y, u, v []byte, yStride, uvStride, mbW, mbH int) {
+	enc := NewEncoder(img, cfg)
+	y = append([]byte(nil), enc.yPlane...)
+	u = append([]byte(nil), enc.uPlane...)
+	v = append([]byte(nil), enc.vPlane...)
+	yStride, uvStride, mbW, mbH = enc.yStride, enc.uvStride, enc.mbW, enc.mbH
+	ReleaseEncoder(enc)
+	return
+}
+
+// VerifImportHasAlpha is this package's imageHasAlpha.
+func VerifImportHasAlpha(img image.Image) bool { return imageHasAlpha(img) }
+
+// VerifImportUVFromPlanar is the second half of importImage's chroma loop:
+// planar holds, for each of pairs row pairs, 2*padW interleaved R,G,B,A
+// samples (upper row first); every pair goes through dsp.AccumulateRGBA and
+// dsp.ConvertRGBA32ToUV (or, when dithering > 0, ConvertRGBA32ToUVDithered
+// with a generator that first made skipDraws luma draws).
+func VerifImportUVFromPlanar(planar []byte, padW, pairs int, dithering float32, skipDraws int) (u, v []byte) {
+	dsp.InitGammaTables()
+	uvW := (padW + 1) >> 1
+	u = make([]byte, pairs*uvW)
+	v = make([]byte, pairs*uvW)
+	tmp := make([]uint16, uvW*4)
+	r := make([]uint8, 2*padW)
+	g := make([]uint8, 2*padW)
+	b := make([]uint8, 2*padW)
+	a := make([]uint8, 2*padW)
+	var rg *dsp.VP8Random
+	if dithering > 0 {
+		rg = &dsp.VP8Random{}
+		dsp.InitRandom(rg, dithering)
+		for i := 0; i < skipDraws; i++ {
+			dsp.RandomBits(rg, dsp.YUVFix)
+		}
+	}
+	for y := 0; y < pairs; y++ {
+		src := planar[y*2*padW*4:]
+		for i := 0; i < 2*padW; i++ {
+			r[i], g[i], b[i], a[i] = src[4*i], src[4*i+1], src[4*i+2], src[4*i+3]
+		}
+		dsp.AccumulateRGBA(r, g, b, a, padW, tmp, padW)
+		if rg != nil {
+			dsp.ConvertRGBA32ToUVDithered(tmp, u[y*uvW:], v[y*uvW:], uvW, rg)
+		} else {
+			dsp.ConvertRGBA32ToUV(tmp, u[y*uvW:], v[y*uvW:], uvW)
+		}
+	}
+	return u, v
+}
